@@ -7,7 +7,7 @@ use crate::schemes::*;
 use crate::types::*;
 use ark_ec::{AffineRepr, CurveGroup};
 use ark_ff::{PrimeField, Zero};
-use ark_poly::{multivariate::Term, DenseMVPolynomial, DenseUVPolynomial, Polynomial};
+use ark_poly::{multivariate::{SparseTerm, Term}, DenseMVPolynomial, DenseUVPolynomial, Polynomial};
 use ark_serialize::{CanonicalDeserialize, CanonicalSerialize};
 
 pub fn naive_sum<A: AffineRepr>(bases: &[A], scalars: &[A::ScalarField]) -> Result<A::Group, String> {
@@ -46,6 +46,11 @@ pub trait Alg: Scheme {
     fn expected_coeffs(keys: &Keys<Self>, h: usize) -> usize;
     fn state_bytes(st: &State<Self>) -> Vec<u8> {
         crate::util::ser(st)
+    }
+    /// the same polynomial in another representation its type admits (public fields): explicit
+    /// zero-coefficient terms, another term order. None = the type has one representation only.
+    fn alt_representation(_keys: &Keys<Self>, _p: &Self::P, _seed: u64) -> Option<(Self::P, &'static str)> {
+        None
     }
     /// evaluation of the blinding polynomial(s) of a state at a point: (plain, shifted)
     fn blinding_eval(_st: &State<Self>, _z: &Self::Pt) -> Option<(Self::F, Option<Self::F>)> {
@@ -251,6 +256,41 @@ impl Alg for Pst13 {
             v.push(s.0.into_group());
         }
         v
+    }
+    fn alt_representation(keys: &Keys<Self>, p: &MVPoly, seed: u64) -> Option<(MVPoly, &'static str)> {
+        use rand_core::RngCore;
+        let mut g = crate::util::rng(seed ^ 0xa17e);
+        let mut terms: Vec<(Fr, SparseTerm)> = p.terms().to_vec();
+        let monos: Vec<&SparseTerm> = keys.ck.powers_of_g.keys().collect();
+        match g.next_u64() % 3 {
+            0 => {
+                // an explicit zero-coefficient term of a monomial the key covers, anywhere in the list
+                let t = monos[(g.next_u64() as usize) % monos.len()].clone();
+                if terms.iter().any(|(_, u)| *u == t) {
+                    return None;
+                }
+                let at = (g.next_u64() as usize) % (terms.len() + 1);
+                terms.insert(at, (Fr::zero(), t));
+                Some((MVPoly { num_vars: p.num_vars, terms }, "explicit_zero_term"))
+            }
+            1 if terms.len() >= 2 => {
+                // another term order
+                let k = 1 + (g.next_u64() as usize) % (terms.len() - 1);
+                terms.rotate_left(k);
+                Some((MVPoly { num_vars: p.num_vars, terms }, "terms_in_another_order"))
+            }
+            _ => {
+                // both: zero terms in front and at the end, reversed order
+                terms.reverse();
+                for _ in 0..2 {
+                    let t = monos[(g.next_u64() as usize) % monos.len()].clone();
+                    if !terms.iter().any(|(_, u)| *u == t) {
+                        terms.insert(0, (Fr::zero(), t));
+                    }
+                }
+                Some((MVPoly { num_vars: p.num_vars, terms }, "zero_terms_and_reversed_order"))
+            }
+        }
     }
     fn naive_parts(keys: &Keys<Self>, p: &MVPoly, _bound: Option<usize>) -> Result<Vec<G1>, String> {
         let mut acc = G1::zero();
